@@ -46,6 +46,7 @@ func c05Specs() []built {
 		{Name: "c05-pattern-s", Base: "new", Calls: []C{{Op: "AllowElementsMatching", Re: `^s`}, attrsPat([]string{"src"}, "", `^s`), {Op: "AllowNoAttrs", Scope: "matching", OnRe: `^s`},
 			opt("AddSpaceWhenStrippingTag", true)}},
 		{Name: "c05-unsafe-toggled-off", Base: "new", Calls: []C{opt("AllowUnsafe", true), els("script", "style", "b"), opt("AllowUnsafe", false)}},
+		{Name: "c05-named-comments", Base: "new", Calls: []C{els("script", "style", "b", "p"), {Op: "AllowComments"}}},
 		specByName("ugc"), specByName("strict"), specByName("cmd-email"),
 	}
 	return buildAll(ss)
@@ -54,6 +55,7 @@ func c05Specs() []built {
 var c05Frags = []string{
 	"@", "<script>", "</script>", "<style>", "</style>", "<script/>", "<style/>", "<SCRIPT>", "</SCRIPT>", "<b>", "</b>",
 	"<svg>", "</svg>", "<math>", "<p>", "<sCrIpT src=x>", "<script type=\"text/javascript\">", "<style media=all>", "<!--", "-->",
+	"--&gt;", // an entity-encoded comment terminator (comment data is entity-decoded by the tokenizer)
 	// beyond the core:
 	"<scrİpt>", "<script", "<script ", "</script", "<title>", "</title>", "<textarea>", "<noscript>", "<select>", "<table>", "<x>", "</x>",
 	"<script\x00>", "<script/ >", "</script >", "</style foo>", "<style\n>", "<iframe>", "</iframe>", "<mtext>", "<desc>", "<foreignobject>",
@@ -329,6 +331,13 @@ func runC05(c *run.Ctx) {
 			if c.Own([]byte("c05size"), []byte(fmt.Sprint(n, el))) {
 				evalOn([]string{"ugc", "c05-named", "c05-unskip"}, numberMarkers([]byte(doc)))
 			}
+		}
+	}
+	// many open elements removed for lack of attributes before the script (a depth limit must not let the body through)
+	for _, n := range []int{15, 16, 255, 256, 511, 512, 513, 4096} {
+		doc := strings.Repeat("<a>", n) + "<script><b>@</b>@</script>" + strings.Repeat("</a>", n) + "<i>z</i>"
+		if c.Own([]byte("c05depth"), []byte(fmt.Sprint(n))) {
+			evalOn([]string{"ugc", "c05-named", "strict"}, numberMarkers([]byte(doc)))
 		}
 	}
 	// many attributes on the script / style tag itself (an attribute-count limit must not let the body through)
